@@ -130,11 +130,13 @@ package rfc8628
 //@ func (*DefaultDeviceStrategy).ValidateDeviceCode
 //@   requires h != nil && r != nil && h.Enigma != nil
 //@   ensures [C07.device-code-expiry] err == nil ==> $now >= old($now) && !expired_at(r.GetSession().GetExpiresAt(fosite.DeviceCode), r.GetRequestedAt(), h.Config.GetDeviceAndUserCodeLifespan(ctx), $now)
+//@   ensures [C16.device-code-expires-as-recorded] err == nil ==> $now >= old($now) && !expired_at(r.GetSession().GetExpiresAt(fosite.DeviceCode), r.GetRequestedAt(), h.Config.GetDeviceAndUserCodeLifespan(ctx), $now)
 //@   ensures [C06.device-code-authentic] err == nil ==> authentic(h.Enigma, strings.TrimPrefix(code, "ory_dc_"))
 
 //@ func (*DefaultDeviceStrategy).ValidateUserCode
 //@   requires h != nil && r != nil
 //@   ensures [C07.user-code-expiry] err == nil ==> $now >= old($now) && !expired_at(r.GetSession().GetExpiresAt(fosite.UserCode), r.GetRequestedAt(), h.Config.GetDeviceAndUserCodeLifespan(ctx), $now)
+//@   ensures [C16.user-code-expires-as-recorded] err == nil ==> $now >= old($now) && !expired_at(r.GetSession().GetExpiresAt(fosite.UserCode), r.GetRequestedAt(), h.Config.GetDeviceAndUserCodeLifespan(ctx), $now)
 
 //@ func (*DefaultDeviceStrategy).UserCodeSignature
 //@   requires h != nil
